@@ -153,6 +153,35 @@ def case_c01(rep, spec):
             rep.violation({**key, "what": "inverse raises", "error": type(e).__name__}, f"{z['name']}.inverse({xn}): {type(e).__name__}: {str(e)[:200]}")
 
 
+    _integer_point(rep, z, spec)
+
+
+def _integer_point(rep, z, spec):
+    """A point given as an integer array (legal ArrayLike) is the same point: if the call is accepted, the result must be
+    the one for the float array -- not its truncation to the input's dtype."""
+    b, c = z["b"], z["cond"]
+    for p in z["points"][:2]:
+        xr = np.rint(np.asarray(p["x"], float))
+        try:
+            yf = np.asarray(b.transform(jnp.asarray(xr), c), float)
+        except Exception:  # noqa: BLE001
+            continue
+        if not np.all(np.isfinite(yf)):
+            continue
+        try:
+            yi = np.asarray(b.transform(jnp.asarray(xr.astype(np.int64)), c), float)
+        except Exception:  # noqa: BLE001        (a loud rejection of integer input is not a wrong value)
+            rep.count(1)
+            continue
+        rep.count(1, (z["name"], "integer dtype"))
+        tol = 1e-6 * (1 + np.abs(yf).max())          # integer input may be computed in single precision (weak types)
+        if yi.shape != yf.shape or not np.all(np.abs(yi - yf) <= tol):
+            rep.violation({**_key(z, p), "what": "integer-dtype point"},
+                          f"{z['name']}: transform of the integer array {xr.astype(int).ravel().tolist()} = {yi.ravel().tolist()}, "
+                          f"of the same point as a float array = {yf.ravel().tolist()}", {"spec": spec, "point": xr.tolist()})
+        return
+
+
 # ---------------------------------------------------------------------------------------------------------------
 def _slogdet(b, x, c, bisect=False):
     x = jnp.asarray(x)
